@@ -409,6 +409,7 @@ Exec(n, s, st) ==
          ELSE LET vals == r.v.l IN
               IF Len(vals) = 1 /\ Len(n.lhs) > 1 /\ vals[1].t = "list" /\ Len(vals[1].l) > 0
               THEN AssignAll(n.lhs, vals[1].l, 1, Min(Len(n.lhs), Len(vals[1].l)), s, r.st)
+              ELSE IF Len(vals) > Len(n.lhs) THEN AssignAll(n.lhs, vals, 1, Len(n.lhs), s, r.st)      \* surplus right-hand values: all evaluated (above), the first ones assigned
               ELSE IF Len(vals) # Len(n.lhs) THEN Norm(MarkOpen(r.st), OpenV)
               ELSE AssignAll(n.lhs, vals, 1, Len(vals), s, r.st)
     [] n.k = "letmi" ->    \* v, ok = m[k] : the index expression is evaluated ONCE; (value, true), or (nil, false) when it yields nil
@@ -422,6 +423,7 @@ Exec(n, s, st) ==
          ELSE LET vals == r.v.l IN
               IF Len(vals) = 1 /\ Len(n.names) > 1 /\ vals[1].t = "list" /\ Len(vals[1].l) > 0
               THEN Norm(DefineAll(n.names, vals[1].l, 1, Min(Len(n.names), Len(vals[1].l)), s, r.st), NilV)
+              ELSE IF Len(vals) > Len(n.names) THEN Norm(DefineAll(n.names, vals, 1, Len(n.names), s, r.st), OpenV)
               ELSE IF Len(vals) # Len(n.names) THEN Norm(MarkOpen(r.st), OpenV)
               ELSE Norm(DefineAll(n.names, vals, 1, Len(vals), s, r.st), NilV)
     [] n.k = "if" ->
